@@ -1295,10 +1295,16 @@ class _Inliner:
         if len(comp.generators) != 1 or comp.generators[0].is_async:
             return None
         g = comp.generators[0]
-        if not isinstance(g.iter, ast.Call):
-            return None
-        h = self.target(g.iter)
-        if not h or h[1] != "gen":
+        h = self.target(g.iter) if isinstance(g.iter, ast.Call) else None
+        lazy = bool(h) and h[1] == "gen"
+        # ... or an element computed by a helper that needs statements of its own
+        parts = [comp.elt] if isinstance(comp, ast.ListComp) else [comp.key, comp.value]
+        heavy = False
+        for c in [n for p_ in parts for n in ast.walk(p_) if isinstance(n, ast.Call)]:
+            t = self.target(c)
+            if t and (t[1] in ("tail", "multi") or (t[1] == "expr" and len(t[2]) > 1)):
+                heavy = True
+        if not lazy and not heavy:
             return None
         if isinstance(st, ast.Assign):
             if len(st.targets) != 1 or not isinstance(st.targets[0], ast.Name):
@@ -2129,6 +2135,48 @@ def _const_fold(e, env):
     return None
 
 
+_PURE_NAMES = {"tuple", "list", "range", "sorted", "reversed", "zip", "enumerate", "len"}
+_PURE_ITERTOOLS = {"combinations", "combinations_with_replacement", "permutations", "product"}
+
+
+def _pure_table(e):
+    """the display a call tree of tuple/list/range/sorted/zip/enumerate/itertools.* over integer
+    and string constants evaluates to (nested tuples/lists of constants, at most 64 rows);
+    None when the expression is anything else"""
+    import itertools
+    for n in ast.walk(e):
+        if isinstance(n, ast.Name):
+            if n.id not in _PURE_NAMES and n.id != "itertools":
+                return None
+        elif isinstance(n, ast.Attribute):
+            if not (isinstance(n.value, ast.Name) and n.value.id == "itertools"
+                    and n.attr in _PURE_ITERTOOLS):
+                return None
+        elif isinstance(n, ast.Constant):
+            if not isinstance(n.value, (int, str)) or isinstance(n.value, bool):
+                return None
+        elif isinstance(n, ast.keyword):
+            if n.arg != "repeat":
+                return None
+        elif not isinstance(n, (ast.Call, ast.Tuple, ast.List, ast.Load, ast.UnaryOp,
+                                ast.USub)):
+            return None
+    try:
+        v = eval(compile(ast.Expression(body=copy.deepcopy(e)), "<table>", "eval"),
+                 {"__builtins__": {k: getattr(__import__("builtins"), k) for k in _PURE_NAMES},
+                  "itertools": itertools})
+    except Exception:
+        return None
+
+    def ok(x, d=0):
+        if isinstance(x, (tuple, list)):
+            return d < 3 and len(x) <= 64 and all(ok(y, d + 1) for y in x)
+        return isinstance(x, (int, str)) and not isinstance(x, bool)
+    if not isinstance(v, (tuple, list)) or not v or not ok(v):
+        return None
+    return ast.parse(repr(v), mode="eval").body
+
+
 def module_constants(tree):
     stores = {}
     for n in ast.walk(tree):
@@ -2145,6 +2193,17 @@ def module_constants(tree):
             nm = (n.asname or n.name).split(".")[0]
             stores[nm] = stores.get(nm, 0) + 2
     env = {}
+    # index tables computed once at import from constants (tuple(itertools.combinations(...)),
+    # tuple(range(3)), ...) are written out as the display they evaluate to
+    for st in tree.body:
+        if isinstance(st, ast.Assign) and len(st.targets) == 1 \
+                and isinstance(st.targets[0], ast.Name) and stores.get(st.targets[0].id) == 1 \
+                and (st.targets[0].id.startswith("_") or st.targets[0].id.isupper()) \
+                and isinstance(st.value, ast.Call):
+            lit = _pure_table(st.value)
+            if lit is not None:
+                st.value = ast.copy_location(lit, st.value)
+                ast.fix_missing_locations(st)
     for st in tree.body:
         if isinstance(st, ast.Assign) and len(st.targets) == 1 \
                 and isinstance(st.targets[0], ast.Name) and stores.get(st.targets[0].id) == 1:
@@ -2186,6 +2245,45 @@ def module_constants(tree):
             nm = st.targets[0].id
             if nm.startswith("_") or nm.isupper():
                 tables[nm] = st.value
+    # a dict display with constant keys: its items / keys / values where a loop runs over them
+    dict_tables = {}
+    for st in tree.body:
+        if isinstance(st, ast.Assign) and len(st.targets) == 1 \
+                and isinstance(st.targets[0], ast.Name) and stores.get(st.targets[0].id) == 1 \
+                and isinstance(st.value, ast.Dict) and 1 <= len(st.value.keys) <= 16 \
+                and all(isinstance(k, ast.Constant) for k in st.value.keys) \
+                and all(table_ok(v, 1) for v in st.value.values):
+            nm = st.targets[0].id
+            mutated = any(isinstance(n, ast.Subscript) and isinstance(n.value, ast.Name)
+                          and n.value.id == nm and isinstance(n.ctx, (ast.Store, ast.Del))
+                          for n in ast.walk(tree)) or any(
+                isinstance(n, ast.Attribute) and isinstance(n.value, ast.Name)
+                and n.value.id == nm and n.attr in ("update", "pop", "setdefault", "clear",
+                                                    "popitem", "__setitem__")
+                for n in ast.walk(tree))
+            if (nm.startswith("_") or nm.isupper()) and not mutated:
+                dict_tables[nm] = st.value
+
+    def dict_rows(it):
+        """<dict table>.items() / .keys() / .values() / the table itself as a display"""
+        d, how = None, None
+        if isinstance(it, ast.Name) and it.id in dict_tables:
+            d, how = dict_tables[it.id], "keys"
+        elif isinstance(it, ast.Call) and not it.args and not it.keywords \
+                and isinstance(it.func, ast.Attribute) and isinstance(it.func.value, ast.Name) \
+                and it.func.value.id in dict_tables \
+                and it.func.attr in ("items", "keys", "values"):
+            d, how = dict_tables[it.func.value.id], it.func.attr
+        if d is None:
+            return None
+        if how == "keys":
+            elts = [copy.deepcopy(k) for k in d.keys]
+        elif how == "values":
+            elts = [copy.deepcopy(v) for v in d.values]
+        else:
+            elts = [ast.Tuple(elts=[copy.deepcopy(k), copy.deepcopy(v)], ctx=ast.Load())
+                    for k, v in zip(d.keys, d.values)]
+        return ast.Tuple(elts=elts, ctx=ast.Load())
 
     class R(ast.NodeTransformer):
         def visit_Name(self, n):
@@ -2196,11 +2294,15 @@ def module_constants(tree):
         def visit_For(self, n):
             if isinstance(n.iter, ast.Name) and n.iter.id in tables:
                 n.iter = copy.deepcopy(tables[n.iter.id])
+            elif dict_rows(n.iter) is not None:
+                n.iter = ast.copy_location(dict_rows(n.iter), n.iter)
             return self.generic_visit(n)
 
         def visit_comprehension(self, n):
             if isinstance(n.iter, ast.Name) and n.iter.id in tables:
                 n.iter = copy.deepcopy(tables[n.iter.id])
+            elif dict_rows(n.iter) is not None:
+                n.iter = ast.copy_location(dict_rows(n.iter), n.iter)
             return self.generic_visit(n)
     tree = R().visit(tree)
 
@@ -2837,12 +2939,119 @@ def objects_to_locals(tree):
     return tree
 
 
+def lift_closures(tree):
+    """A local function that is only ever called (never handed on as a value) becomes a private
+    module-level helper taking the variables it reads from the enclosing function as leading
+    parameters; each call passes their current values (python binds them when the call runs,
+    so nothing changes).  The helper inliner then opens it like any other helper."""
+    import builtins
+    new_defs = []
+
+    def lambdas_to_defs(F):
+        """name = lambda p: e  (the only binding of name, only ever called)  ->  def name(p)"""
+        for a in [n for n in ast.walk(F) if isinstance(n, ast.Assign)]:
+            if len(a.targets) == 1 and isinstance(a.targets[0], ast.Name) \
+                    and isinstance(a.value, ast.Lambda):
+                nm = a.targets[0].id
+                lam = a.value
+                if lam.args.vararg or lam.args.kwarg or lam.args.kwonlyargs or lam.args.defaults:
+                    continue
+                uses = [n for n in ast.walk(F) if isinstance(n, ast.Name) and n.id == nm]
+                calls = [n for n in ast.walk(F) if isinstance(n, ast.Call)
+                         and isinstance(n.func, ast.Name) and n.func.id == nm]
+                if len(uses) != len(calls) + 1 or any(
+                        isinstance(n, (ast.Lambda, ast.Yield, ast.NamedExpr))
+                        for n in ast.walk(lam.body)):
+                    continue
+                d = ast.FunctionDef(name=nm, args=lam.args,
+                                    body=[ast.Return(value=lam.body)], decorator_list=[],
+                                    returns=None, type_comment=None, type_params=[])
+                ast.copy_location(d, a)
+                ast.fix_missing_locations(d)
+                _replace_stmt(F, a, d)
+
+    def own_nodes(fn):
+        """nodes of fn's body that are not inside a nested def / lambda / class"""
+        todo = list(fn.body)
+        while todo:
+            n = todo.pop()
+            yield n
+            if isinstance(n, (ast.FunctionDef, ast.AsyncFunctionDef, ast.Lambda, ast.ClassDef)):
+                continue
+            todo.extend(ast.iter_child_nodes(n))
+
+    def process(F, top):
+        lambdas_to_defs(F)
+        for g in [n for n in own_nodes(F) if isinstance(n, ast.FunctionDef)]:
+            if g.decorator_list or g.args.vararg or g.args.kwarg or g.args.kwonlyargs \
+                    or any(isinstance(n, (ast.Nonlocal, ast.Global, ast.Yield, ast.YieldFrom,
+                                          ast.FunctionDef, ast.Lambda, ast.ClassDef))
+                           for n in ast.walk(g) if n is not g):
+                continue
+            uses = [n for n in ast.walk(F) if isinstance(n, ast.Name) and n.id == g.name]
+            calls = [n for n in ast.walk(F) if isinstance(n, ast.Call)
+                     and isinstance(n.func, ast.Name) and n.func.id == g.name]
+            if not calls or len(uses) != len(calls) \
+                    or any(isinstance(u.ctx, ast.Store) for u in uses):
+                continue
+            if any(n is not g and isinstance(n, ast.FunctionDef) and n.name == g.name
+                   for n in ast.walk(F)):
+                continue
+            gparams = [a.arg for a in g.args.args]
+            glocals = set(gparams) | {n.id for n in ast.walk(g) if isinstance(n, ast.Name)
+                                      and isinstance(n.ctx, (ast.Store, ast.Del))}
+            flocals = {a.arg for a in F.args.args + F.args.kwonlyargs} | {
+                n.id for n in own_nodes(F) if isinstance(n, ast.Name)
+                and isinstance(n.ctx, ast.Store)} | {
+                n.name for n in own_nodes(F) if isinstance(n, ast.FunctionDef)}
+            if F.args.vararg:
+                flocals.add(F.args.vararg.arg)
+            if F.args.kwarg:
+                flocals.add(F.args.kwarg.arg)
+            free = []
+            for n in ast.walk(g):
+                if isinstance(n, ast.Name) and isinstance(n.ctx, ast.Load) \
+                        and n.id not in glocals and n.id in flocals and n.id not in free:
+                    free.append(n.id)
+            if any(f_ == g.name for f_ in free):
+                continue            # recursive
+            # the free variables that are other local functions must have been lifted first
+            if any(isinstance(n, ast.FunctionDef) and n.name in free for n in own_nodes(F)):
+                continue
+            name = f"_lift_{F.name.strip('_')}_{g.name.strip('_')}"
+            if any(isinstance(n, ast.FunctionDef) and n.name == name for n in ast.walk(tree)) \
+                    or any(d.name == name for _t, d in new_defs):
+                continue
+            h = copy.deepcopy(g)
+            h.name = name
+            h.args.args = [ast.arg(arg=f_) for f_ in free] + h.args.args
+            for c in calls:
+                c.func = ast.Name(id=name, ctx=ast.Load())
+                c.args = [ast.Name(id=f_, ctx=ast.Load()) for f_ in free] + c.args
+            _replace_stmt(F, g, ast.copy_location(ast.Pass(), g))
+            new_defs.append((top, h))
+    for top in list(tree.body):
+        if isinstance(top, ast.FunctionDef):
+            process(top, top)
+        elif isinstance(top, ast.ClassDef):
+            for sub in top.body:
+                if isinstance(sub, ast.FunctionDef):
+                    process(sub, top)
+    for top, h in new_defs:
+        i = [k for k, n in enumerate(tree.body) if n is top][0]
+        tree.body.insert(i, h)
+    if new_defs:
+        ast.fix_missing_locations(tree)
+    return tree
+
+
 def canonicalise(tree, sigs=None, pkg_methods=None):
     for n in ast.walk(tree):
         if hasattr(n, "lineno"):
             n.__dict__["_src_line"] = n.lineno
     tree = std_spellings(tree)
     tree = next_to_loop(tree)
+    tree = lift_closures(tree)
     tree = private_objects(tree)
     tree = module_constants(tree)
     if sigs:
@@ -2851,6 +3060,10 @@ def canonicalise(tree, sigs=None, pkg_methods=None):
     for _round in range(3):
         before = ast.dump(tree) if _round else None
         _Inliner(tree, pkg_methods).run()
+        n_defs = len(tree.body)
+        tree = lift_closures(tree)          # lambdas handed to a helper that is now open
+        if len(tree.body) != n_defs:
+            _Inliner(tree, pkg_methods).run()
         if classes:
             for f in [n for n in ast.walk(tree) if isinstance(n, ast.FunctionDef)]:
                 split_records(f, classes)
@@ -2862,6 +3075,7 @@ def canonicalise(tree, sigs=None, pkg_methods=None):
                 _unparse(n.func).split(".")[-1]) for n in ast.walk(tree)):
             break
     tree = objects_to_locals(tree)
+    tree = module_constants(tree)       # tables that reached a loop header through a parameter
     tree = _KeysNorm().visit(tree)
     tree.body = canon_block(tree.body)
     if _OPS_PASS is not None:
